@@ -205,6 +205,71 @@ def toplevel_layout(sl):
     observe("rejected iff not exactly one of schedule/challenge/challenges, or indices together with data streams", (how == "reject") == bad)
 
 
+def corpora_rules(sl):
+    """one corpus with two document sets: targets (own, corpus default, single index / data stream default), inherited base-url and
+    action-and-meta-data flags, sizes and counts are exactly those written; a missing mandatory target is rejected"""
+    streams = sl["streams"]
+    n_targets = concrete(fresh_int("number_of_indices_or_data_streams", 1, 2))
+    key = "target-data-stream" if streams else "target-index"
+    names = ["t%d" % i for i in range(n_targets)]
+    spec = {"operations": [{"name": "force-merge", "operation-type": "force-merge"}], "schedule": [{"operation": "force-merge"}]}
+    spec["data-streams" if streams else "indices"] = [{"name": n} for n in names]
+    corpus = {"name": "corpus", "documents": []}
+    corpus_target = "corpus-target" if bool(fresh_bool("corpus_has_default_target")) else None
+    if corpus_target:
+        corpus[key] = corpus_target
+    corpus_url = "http://corpus.example.org" if bool(fresh_bool("corpus_has_base_url")) else None
+    if corpus_url:
+        corpus["base-url"] = corpus_url
+    corpus_meta = bool(fresh_bool("corpus_includes_action_and_meta_data"))
+    if corpus_meta:
+        corpus["includes-action-and-meta-data"] = True
+    docs = []
+    for i in range(2):
+        d = {"source-file": "docs%d.json.bz2" % i if i == 0 else "docs1.json", "document-count": fresh_int("document_count_%d" % i, 1)}
+        own = "own-target-%d" % i if bool(fresh_bool("doc%d_has_own_target" % i)) else None
+        if own:
+            d[key] = own
+        url = "http://doc%d.example.org" % i if bool(fresh_bool("doc%d_has_base_url" % i)) else None
+        if url:
+            d["base-url"] = url
+        meta = None
+        if bool(fresh_bool("doc%d_sets_action_and_meta_data_flag" % i)):
+            meta = bool(fresh_bool("doc%d_action_and_meta_data_value" % i))
+            d["includes-action-and-meta-data"] = meta
+        if i == 0:
+            d["compressed-bytes"] = fresh_int("compressed_bytes_0", 1)
+            d["uncompressed-bytes"] = fresh_int("uncompressed_bytes_0", 1)
+        docs.append((d, own, url, meta))
+        corpus["documents"].append(d)
+    spec["corpora"] = [corpus]
+    how, res = _load(spec)
+    core.trace("rejected", how == "reject")
+    observe("never anything but a load or a track syntax error", how in ("ret", "reject"))
+    default_target = corpus_target or (names[0] if n_targets == 1 else None)
+    exp = []
+    for (d, own, url, meta) in docs:
+        with_meta = meta if meta is not None else corpus_meta
+        exp.append((None if with_meta else (own or default_target), with_meta, url or corpus_url))
+    must_reject = any((not with_meta) and target is None for (target, with_meta, _) in exp)
+    core.note("expected", exp)
+    observe("a document set without any applicable target is rejected, everything else loads", (how == "reject") == must_reject)
+    if how != "ret" or must_reject:
+        return
+    got = res.corpora[0].documents
+    observe("both document sets loaded, in order", len(got) == 2 and got[0].document_archive == "docs0.json.bz2" and got[0].document_file == "docs0.json"
+            and got[1].document_archive is None and got[1].document_file == "docs1.json")
+    for i, (g, (target, with_meta, url)) in enumerate(zip(got, exp)):
+        t_got = g.target_data_stream if streams else g.target_index
+        observe("document set %d: target is its own, else the corpus default, else the only index / data stream" % i, t_got == target)
+        observe("document set %d: the other kind of target stays unset" % i, (g.target_index if streams else g.target_data_stream) is None)
+        observe("document set %d: action-and-meta-data flag is its own, else the corpus default" % i, g.includes_action_and_meta_data == with_meta)
+        observe("document set %d: base-url is its own, else the corpus default" % i, g.base_url == url)
+        observe("document set %d: document count as written" % i, g.number_of_documents == docs[i][0]["document-count"])
+    observe("sizes as written / absent", got[0].compressed_size_in_bytes == docs[0][0]["compressed-bytes"] and got[0].uncompressed_size_in_bytes == docs[0][0]["uncompressed-bytes"]
+            and got[1].compressed_size_in_bytes is None and got[1].uncompressed_size_in_bytes is None)
+
+
 def names_rules(sl):
     """duplicate operation / corpus names; duplicate task names sequentially, across and within parallel elements"""
     kind = sl["kind"]
@@ -362,11 +427,13 @@ def file_reader_pipeline(sl):
     if reserved:
         user[["glob", "now", "build_flavor"][concrete(fresh_int("which_reserved", 0, 2))]] = "x"
     version = [2, 1, 3][concrete(fresh_int("track_version", 0, 2))]
-    schema_bad = bool(fresh_bool("schema_violation"))
+    # values written in an integer position of the schema ("clients": minimum 1): the first is valid
+    clients_text = ["1", "0", "4.0", '"4"', "1e2", "-1", "2.5"][concrete(fresh_int("clients_value_of_second_task_as_written", 0, 6))]
+    schema_bad = clients_text != "1"
     d = tempfile.mkdtemp(prefix="verif-c10-")
     try:
         with open(os.path.join(d, "track.json"), "w") as f:
-            f.write(TRACK_TEMPLATE.replace("VERSION", str(version)).replace("MINCLIENTS", "0" if schema_bad else "1"))
+            f.write(TRACK_TEMPLATE.replace("VERSION", str(version)).replace("MINCLIENTS", clients_text))
         for rel, content in PART_LAYOUTS[sl["layout"]].items():
             os.makedirs(os.path.dirname(os.path.join(d, rel)), exist_ok=True)
             with open(os.path.join(d, rel), "w") as f:
@@ -443,6 +510,10 @@ HARNESSES = [
             reads=READS, assumptions=OUT, bounds={"challenges": "<=3, default absent/false/true each, duplicate names, selected challenge"},
             doc="challenge names, defaults, selection, order"),
     Harness("toplevel_layout", toplevel_layout, "symbolic", lambda tier: [{}], reads=READS, assumptions=OUT, doc="schedule/challenge/challenges exclusivity; indices vs data streams"),
+    Harness("corpora_rules", corpora_rules, "symbolic", lambda tier: [{"streams": False}, {"streams": True}], reads=READS, assumptions=OUT,
+            bounds={"corpus": "1 corpus x 2 document sets", "targets": "1..2 indices or data streams; own / corpus-level / implicit default each present or not",
+                    "flags": "includes-action-and-meta-data and base-url on corpus and document level", "counts and sizes": "unbounded symbolic integers"},
+            doc="document sets: target resolution, inherited defaults, sizes; missing mandatory target rejected"),
     Harness("names_rules", names_rules, "symbolic",
             lambda tier: [{"kind": k} for k in ("operations", "corpora", "tasks-sequential", "tasks-across-parallel", "tasks-within-parallel", "tasks-default-names")],
             reads=READS, assumptions=OUT, doc="duplicate operation, corpus and task names"),
@@ -450,7 +521,7 @@ HARNESSES = [
     Harness("file_reader_pipeline", file_reader_pipeline, "bounded-exhaustive", lambda tier: [{"layout": k} for k in PART_LAYOUTS], reads=READS + [loader.TrackFileReader.read, loader.render_template_from_file,
                                                                                                           loader.CompleteTrackParams, loader.register_all_params_in_track],
             assumptions=["runs on a real temporary directory (created and removed per path) with the real Jinja2, json and jsonschema: a finite family, no symbolic strings"],
-            bounds={"track parameters": "bulk_size / clients given or not, an unused (misspelt) and a reserved parameter given or not", "track file": "version 1/2/3, one schema violation or none", "parts": sorted(PART_LAYOUTS)},
+            bounds={"track parameters": "bulk_size / clients given or not, an unused (misspelt) and a reserved parameter given or not", "track file": "version 1/2/3; an integer position holding 1 / 0 / 4.0 / a string / 1e2 / -1 / 2.5", "parts": sorted(PART_LAYOUTS)},
             doc="end-to-end TrackFileReader.read: substitution, rally.collect, version, schema, reserved and unused parameters"),
     Harness("template_params", template_params, "bounded-exhaustive", lambda tier: [{"construct": c} for c in CONSTRUCTS], reads=READS + [loader.render_template, loader.default_internal_template_vars],
             assumptions=["Jinja2 and json run concretely on a finite family of templates (no symbolic strings): this harness only ties the rendering stage to the reader for the listed constructs"],
